@@ -217,6 +217,12 @@ def defect_classes(pre, op):
                     owned += ifs_of_node(n)
         if any(g.typ(i) == 'ServicePort' for i in owned):
             out.append('owned-serviceport')
+    if kind == 'add_link' and any(g.cls(i) is not None and g.cls(i) != CP for i in a[3]):
+        out.append('link-non-interface')       # add_link handed an element that is not an interface
+    if kind == 'disconnect' and g.typ(a[1]) == 'ServicePort' and any(g.typ(y) == 'ServicePort' for (_, y) in g.peers(a[1])):
+        out.append('peering-port')             # disconnect_interface handed a peering port
+    if kind == 'stale_add_iface':
+        out.append('stale-handle')             # add_interface through the handle of a removed service
     if kind == 'peer':
         # peer checks neither that the two services differ nor that the derived link name <a>-<b>-link is free
         if a[0] == a[1]:
